@@ -733,8 +733,8 @@ class Encoder:
         v = raw["render"]["value"]
         if raw["render"]["starved"]:
             v = "CursorCut" if raw["render"]["starved"][0][1] == "cursor-cut" else "Starved"
-        if kind == "canv" and not isinstance(v, str) and not v[3]:
-            self.ok = False
+        if kind == "canv" and ((not isinstance(v, str) and not v[3]) or v == "CursorCut"):
+            self.ok = False           # ragged rows or a cursor outside its own canvas: the leaf breaks its contract
         return e_res(v, kind)
 
     def leaf(self, w):
@@ -1164,7 +1164,7 @@ class C01(core.Check):
                 probes += [[1, c, 0, 0], [1, c, 0, 1]]
         if bits[2]:
             probes += [[0, 0, 0, 0], [0, 0, 0, 1]]
-        stateful = any(t[0] == "gridflow" for t in subtrees(spec))     # GridFlow answers depend on the previous call
+        stateful = False          # (GridFlow.pack was history-dependent before ff415d1)
         case = {"tree": spec, "enc": enc, "probes": probes,
                 "mode": "corr" if (why is None and not stateful) else "oracle", "why": why}
         if why == LENIENT:
